@@ -269,7 +269,7 @@ func exCase(c *Ctx, in exIn) {
 	c.Emit("reconcile", in, impl)
 }
 
-func pick(c *Ctx, xs ...string) string { return xs[c.Rng.Intn(len(xs))] }
+func pickS(c *Ctx, xs ...string) string { return xs[c.Rng.Intn(len(xs))] }
 
 func genExecutorCase(c *Ctx) exIn {
 	R := c.Rng.Intn(12)
@@ -321,7 +321,7 @@ func genExecutorCase(c *Ctx) exIn {
 	default:
 		st.Phase = "Progressing"
 	}
-	st.BatchState = pick(c, "Upgrading", "Upgrading", "Verifying", "Verifying", "Ready", "Ready", "Ready", "", "Weird")
+	st.BatchState = pickS(c, "Upgrading", "Upgrading", "Verifying", "Verifying", "Ready", "Ready", "Ready", "", "Weird")
 	st.CurrentBatch = c.Rng.Intn(nb + 1)
 	if c.Rng.Intn(15) == 0 {
 		st.CurrentBatch = nb + c.Rng.Intn(2)
@@ -333,7 +333,7 @@ func genExecutorCase(c *Ctx) exIn {
 		st.CurrentBatch = *br.Partition
 	}
 	st.HasReadyTime = st.BatchState == "Ready" && c.Rng.Intn(4) != 0
-	st.Hash = pick(c, "same", "same", "same", "same", "same", "same", "differs", "empty")
+	st.Hash = pickS(c, "same", "same", "same", "same", "same", "same", "differs", "empty")
 	if c.Rng.Intn(10) == 0 {
 		st.ObservedReplicas = pickInt(c, -1, R+1, R-1)
 	}
@@ -394,7 +394,7 @@ func genExecutorCase(c *Ctx) exIn {
 			w.Partition = J{"i": c.Rng.Intn(R + 1)}
 		}
 		w.Paused = c.Rng.Intn(8) == 0
-		w.Owner = pick(c, "this", "this", "this", "this", "none", "other")
+		w.Owner = pickS(c, "this", "this", "this", "this", "none", "other")
 		st.Updated, st.UpdatedReady = w.Updated, w.UpdatedReady
 		if c.Rng.Intn(6) == 0 {
 			st.Updated = c.Rng.Intn(R + 1)
